@@ -46,10 +46,10 @@ SetToSeq(S) ==
 WithHas(par, minHas) ==
   {[par |-> par, has |-> hs] : hs \in {x \in SUBSET (1..Len(par)) : Cardinality(x) >= minHas}}
 
-\* quick: the chain of 3 and the fork of 3, every choice of owners with >= 2 owners,
-\* plus the chain where only the middle / only the ends own arguments
+\* quick: the chain of 3 classes with four owner sets and the fork with two
 TreesQuick ==
-  WithHas(<<0, 1, 2>>, 2) \cup WithHas(<<0, 1, 1>>, 2) \cup {[par |-> <<0, 1, 2>>, has |-> {2}]}
+  {[par |-> <<0, 1, 2>>, has |-> hs] : hs \in {{1, 2, 3}, {1, 3}, {2, 3}, {2}}}
+  \cup {[par |-> <<0, 1, 1>>, has |-> hs] : hs \in {{1, 2, 3}, {2, 3}}}
 \* thorough: every shape with <= 4 classes (depth <= 3, branching <= 2) x every non-empty
 \* owner set, and every 5-class shape with all / alternating owners
 TreesThorough ==
@@ -57,7 +57,12 @@ TreesThorough ==
   \cup UNION {{[par |-> p, has |-> {1, 2, 3, 4, 5}], [par |-> p, has |-> {1, 3, 4}],
                [par |-> p, has |-> {2, 4, 5}]} : p \in Shape(5)}
 
-AllTrees == SetToSeq(IF TreeSel = "quick" THEN TreesQuick ELSE TreesThorough)
+\* the smallest tree on which every action, accepted and rejected, can fire (two unrelated
+\* owners): used for the -coverage run of the quick tier
+TreesCover == {[par |-> <<0, 1, 1>>, has |-> {2, 3}]}
+AllTrees == SetToSeq(CASE TreeSel = "quick" -> TreesQuick
+                       [] TreeSel = "cover" -> TreesCover
+                       [] OTHER -> TreesThorough)
 \* partition Part of NParts (so that edge dumps, which need one worker, can run side by side)
 Trees == SelectSeq2(AllTrees, NParts, Part)
 
